@@ -361,8 +361,6 @@ class RSocketBase(RSocket, RSocketInternal):
                 except RSocketProtocolError as exception:
                     logger().error('%s: Protocol error %s', self._log_identifier(), str(exception))
                     self.send_error(frame.stream_id, exception)
-                except RSocketTransportError:
-                    raise
                 except Exception as exception:
                     logger().error('%s: Unknown error', self._log_identifier(), exc_info=True)
                     self.send_error(frame.stream_id, exception)
